@@ -1032,7 +1032,9 @@ class ThreadedRun(Run):
   def _run(self, buf):
     D, R, U = self.D, self.R, self.U
     sc = self._sc
-    if isinstance(sc, dict) and sc.get("list") is not None:
+    if isinstance(sc, dict) and sc.get("devs") is not None:
+      chooser = D.SparseChooser({int(k): int(v) for k, v in sc["devs"]})
+    elif isinstance(sc, dict) and sc.get("list") is not None:
       chooser = D.ListChooser([int(x) for x in sc["list"]])
     else:
       chooser = D.GapChooser([[int(g), int(v)] for g, v in (sc.get("gaps") or [])])
@@ -1080,7 +1082,8 @@ class ThreadedRun(Run):
           why = "quiesce"
           break
         if now >= self.H:
-          why = "horizon"
+          # a step that is still taking time at the horizon: stop without judging liveness (as inline does)
+          why = "horizon-busy" if self._in_busy > 0 else "horizon"
           break
         dls = [dl for (name, site, dl) in ds.blocked() if dl is not None and name != "main"]
         if not dls:
@@ -1118,6 +1121,7 @@ class ThreadedRun(Run):
       self.emit(("deadlock", [[n, str(s)] for n, s in res.deadlock]))
     if res.stalled is not None:
       self.emit(("deadlock", [[n, str(s)] for n, s in res.stalled]))
+    self.decisions = res.decisions
     extra["decisions"] = len(res.decisions)
     extra["deviations"] = sum(1 for d in res.decisions if d["v"] != 0)
     extra["preemptions"] = len(res.preemptions)
@@ -1127,3 +1131,10 @@ class ThreadedRun(Run):
 
 def run_threaded(case):
   return ThreadedRun(case).go()
+
+
+def probe_decisions(case):
+  """The decisions ({"k","n","kind","site","thread",...}) taken while running `case` in threaded mode."""
+  r = ThreadedRun(case)
+  r.go()
+  return r.decisions
